@@ -85,7 +85,8 @@ def random_lens(rnd, nsurf=None, kinds=("standard",), mirrors=False, tilts=False
             kw["coefficients"] = [[0.0, rnd.uniform(-1e-2, 1e-2)],
                                   [rnd.uniform(-1e-2, 1e-2), rnd.uniform(-1e-2, 1e-2)],
                                   [rnd.uniform(-1e-2, 1e-2), 0.0]]
-            kw["norm_x"] = kw["norm_y"] = 64.0
+            kw["norm_x"] = rnd.choice([64.0, 128.0])        # rectangular normalisation half the time
+            kw["norm_y"] = rnd.choice([64.0, 128.0])
         m = rnd.random()
         if mirrors and m < 0.15 and j > 1:
             material = "mirror"
